@@ -128,6 +128,14 @@ CHECKS["C19"] = (
     "DESIGN.md section 4, C19",
 )
 
+CHECKS["C10"] = (
+    "E4-config-enumerator+E1-explicit-state",
+    "exhaustive enumeration of all ordered pairs/triples over canonical reachable-state pools, of single-difference pairs over all attribute orders, and of self-referential structures",
+    "(a) for every class of the family (and subclass families together with base-class instances) a pool of <= 8 (quick) / 12 canonical reachable states is built from constructor variants and one helper step; ALL ordered pairs and triples are checked for reflexivity, symmetry, transitivity, == iff every compare-enabled attribute is equal (missing equals only missing), != consistency, deepcopy(x) == x, reconstruction from own attribute values, and repr (never raises; lists exactly the repr-enabled attributes in declaration order). (b) classes holding ints, strs, lists, bound methods, functions, classes, modules, Optional, a no-default attribute and a compare=False attribute in EVERY declaration order (all permutations + extra orders): for each attribute position every pair of instances differing in exactly that attribute must compare unequal unless it is compare=False. (c) repr of 10 self-referential / missing-value structures in 4 modes.",
+    "Pools are bounded; bound-method values are identical objects or differ in function; cross-class pairs judged for symmetry/transitivity/implication only.",
+    "DESIGN.md section 4, C10",
+)
+
 ENGINES = [
     {"name": "E1-explicit-state", "path": "mc/common.py, props/*.py (explore)", "serves_properties": [],
      "kind_free_text": "breadth-first explicit-state search over the real transition function; a state is the shortest operation history that reaches it, rebuilt by replay; canonical-form deduplication; lock-step reference model"},
